@@ -25,4 +25,6 @@ for s in todo:
               "wall_s": round(time.time() - t), "first_violation_line": (viol[0] if viol else ""),
               "detail": [l for l in p.stdout.splitlines() if l.startswith("  ")][:1], "when": time.strftime("%Y-%m-%d %H:%M")}
     print(s, "rc=%d" % p.returncode, "DETECTED" if res[s]["detected"] else "MISSED/ERR", flush=True)
-    json.dump(res, open(resp, "w"), indent=1, sort_keys=True)
+    cur = json.load(open(resp)) if os.path.exists(resp) else {}   # other seedmatrix runs may have written meanwhile
+    cur[s] = res[s]; res = cur
+    json.dump(res, open(resp + ".tmp", "w"), indent=1, sort_keys=True); os.replace(resp + ".tmp", resp)
